@@ -3,7 +3,7 @@
 # worktrees (tools/par_matrix.sh), and rewrites seeded/MATRIX.txt, mutants/MATRIX.txt and the tables in DESIGN.md.
 # usage: tools/full_matrix.sh [workers]
 cd "$(dirname "$0")/.."
-declare -A REV=( [D1]="C09" [D2]="C08" [D3]="C05 C11" [D4]="C16" [D5]="C07" [D6]="C04" [D7]="C04" [D8]="C04" [D17]="C04" [D10]="C10" [D11]="C07" [D12]="C09" [D13a]="C12" [D13b]="C07" [D14]="C07" [D15]="C14" [D16]="C07" [D18]="C19" [D19]="C19" [D20]="C19" )
+declare -A REV=( [D1]="C09" [D2]="C08" [D3]="C05 C11" [D4]="C16" [D5]="C07" [D6]="C04" [D7]="C04" [D8]="C04" [D17]="C04" [D10]="C10" [D11]="C07" [D12]="C09" [D13a]="C12" [D13b]="C07" [D14]="C07" [D15]="C14" [D16]="C07" [D18]="C19" [D19]="C19" [D20]="C19" [D21]="C01 C04" )
 jobs=$(mktemp)
 for d in seeded/C*-*/; do id=$(basename $d); echo "$id $PWD/$d/patch.diff ${id%%-*}"; done > $jobs
 for f in mutants/*.diff; do
